@@ -737,6 +737,7 @@ func (ar *asyncRunner) start(nArgs int) {
 	ar.promiseCap = r.newPromiseCapability(r.getPromise())
 	sp := r.vm.sp
 	ar.gen.enter()
+	defer ar.gen.unwindOnPanic()
 	ar.vmCall(r.vm, nArgs)
 	res, resType, ex := ar.gen.step()
 	ar.step(res, resType == resultNormal, ex)
@@ -764,6 +765,26 @@ func (g *generator) enter() {
 	g.vm.pushTryFrame(tryPanicMarker, -1)
 	g.vm.prg, g.vm.sb, g.vm.pc = nil, -1, -2 // so that vm.run() halts after ret
 	g.storeLengths()
+}
+
+// unwindOnPanic is deferred right after enter()/enterNext(). If a panic passes through the code that
+// follows (an uncatchable error such as an interrupt or a stack overflow, or an exception that was not
+// handled inside the generator), the popTryFrame()/popCtx() that normally undo enter()/enterNext() are
+// never reached and the marker try frame and the context would be left behind, where the caller's
+// handler would take the frame for its own. It does nothing if the marker frame is already gone.
+func (g *generator) unwindOnPanic() {
+	if x := recover(); x != nil {
+		vm := g.vm
+		if l := int(g.tryStackLen); l > 0 && l <= len(vm.tryStack) {
+			tf := &vm.tryStack[l-1]
+			if cl := int(tf.callStackLen); cl > 0 && cl <= len(vm.callStack) {
+				vm.callStack = vm.callStack[:cl]
+				vm.popCtx()
+			}
+			vm.tryStack = vm.tryStack[:l-1]
+		}
+		panic(x)
+	}
 }
 
 func (g *generator) enterNextFinallyFrame() (canContinue bool) {
@@ -870,6 +891,7 @@ func (g *generator) enterNext() {
 
 func (g *generator) next(v Value) (Value, resultType, *Exception) {
 	g.enterNext()
+	defer g.unwindOnPanic()
 	if v != nil {
 		g.vm.push(v)
 	}
@@ -881,6 +903,7 @@ func (g *generator) next(v Value) (Value, resultType, *Exception) {
 
 func (g *generator) nextThrow(v interface{}) (Value, resultType, *Exception) {
 	g.enterNext()
+	defer g.unwindOnPanic()
 	ex := g.vm.handleThrow(v)
 	if ex != nil {
 		g.vm.popTryFrame()
@@ -900,6 +923,7 @@ func (g *generatorObject) init(vmCall func(*vm, int), nArgs int) {
 	g.gen.vm = vm
 
 	g.gen.enter()
+	defer g.gen.unwindOnPanic()
 	vmCall(vm, nArgs)
 
 	_, _, ex := g.gen.step()
@@ -1061,6 +1085,7 @@ func (g *generatorObject) _return(v Value) Value {
 	g.gen.returning = v
 	g.state = genStateExecuting
 	g.gen.enterNext()
+	defer g.gen.unwindOnPanic()
 	canContinue := g.gen.enterNextFinallyFrame()
 	if !canContinue {
 		vm := g.gen.vm
